@@ -58,8 +58,14 @@ def dint(n):
     return str(n).encode()
 
 
+def _b(x):
+    return x if isinstance(x, bytes) else x.encode()
+
+
 def dmatcher(m):
-    return dnode("m", dstr(m["l"]), dint(OPC[m["op"]]), dstr(m["v"]))
+    # last field: the source of the compiled regexp the node carries (anchored for a label matcher)
+    re = (b"^(?:" + _b(m["v"]) + b")$") if m["op"] in ("=~", "!~") else b""
+    return dnode("m", dstr(m["l"]), dint(OPC[m["op"]]), dstr(m["v"]), dstr(re))
 
 
 def dpair(p):
@@ -88,7 +94,7 @@ def dpred(p):
 def dstage(s):
     k = s["k"]
     if k == "line":
-        return dnode("line", dint(OPC[s["op"]]), dstr(s["v"]), dbool(s.get("ip", False)))
+        return dnode("line", dint(OPC[s["op"]]), dstr(s["v"]), dbool(s.get("ip", False)), dstr(_b(s["v"]) if s["op"] in ("=~", "!~") and not s.get("ip") else b""))
     if k in ("json", "logfmt"):
         return dnode(k, dlist(dstr, s["labels"]), dlist(dpair, s["exprs"]))
     if k == "regexp":
@@ -273,6 +279,8 @@ class Renderer:
 
     def stage(self, s):
         k = s["k"]
+        if k == "raw":           # literal stage text (used for stages the parser accepts and pipeline construction rejects)
+            return [s["text"]]
         if k == "line":
             op = {"=": "|=", "=~": "|~", "!=": "!=", "!~": "!~"}[s["op"]]
             if s.get("ip"):
@@ -738,6 +746,11 @@ INVALID = [
     '{a="b"} | regexp "(?P<1a>x)"',                                # invalid label name as capture
     '{a="b"} | regexp "(?P<n>a)(?P<n>b)"',                         # duplicate capture
     'label_replace(rate({a="b"}[5m]), "x", "y", "z", "(")',
+    'sum by (a) (rate({a="b"}[5m])) by (b)',                        # a vector aggregation takes one grouping clause
+    'sum by (a) (rate({a="b"}[5m])) without (a)',
+    'topk without (a) (2, rate({a="b"}[5m])) by (b)',
+    'max by () (sum without (x) (rate({a="b"}[5m])) by (y))',
+    'avg_over_time({a="b"} | unwrap x [5m]) by (a) by (b)',
     '{a="b"',                                                      # grammar
     '{a="b"} |',
     '{a="b"} | json,',
